@@ -1,7 +1,7 @@
 (* Setups and tactics used by the generated correspondence cases of C07 (coq/Cases/, never committed). *)
 From Coq Require Import Reals Bool Lra List.
 From Interval Require Import Tactic.
-From SpdVerif Require Import Base.Rx Model.SpectrumSetup Gen.Spectrum Model.Spectrum Proofs.C07_support.
+From SpdVerif Require Import Base.Rx Base.GridOps Gen.Grid Model.SpectrumSetup Gen.Spectrum Model.Spectrum Proofs.C07_support Proofs.C07_counts.
 Import ListNotations.
 Local Open Scope R_scope.
 
@@ -44,3 +44,6 @@ Ltac case_norm :=
   interval with (i_prec 100).
 
 Ltac case_sum := cbn [grid_sum fst snd]; interval with (i_prec 100).
+
+Ltac case_area :=
+  unfold cell_area, steps_division_width, Rops; cbn [o_div o_sub o_nat Nat.sub]; simpl INR; interval with (i_prec 100).
